@@ -109,6 +109,8 @@ Theorem C18_source_facts :
      once the stream is closed *)
   gen_read_first_select_takes_buffered = true /\ gen_read_closed_arm_drains = true /\
   gen_read_fin_arm_drains = true /\ gen_read_has_data_arm = true /\ gen_push_refused_when_closed = true /\
+  (* a push on a full buffer waits (APush is not enabled) - it is never dropped *)
+  gen_push_waits_without_timeout = true /\
   (* the other receivers of STREAM_DATA deliver the payload whatever the flags
      say and before they act on FIN_WRITE ([endpoint_on_data]) *)
   gen_exit_delivers_payload_before_fin = true /\ gen_forward_delivers_payload_before_fin = true /\
